@@ -187,36 +187,64 @@ def r11_3(repo: Repo) -> RuleResult:
 
 def r11_4(repo: Repo) -> RuleResult:
     from .. import sym
+    from . import c10
 
     rr = RuleResult("R11.4", "prior and posterior cells are addressed from the start of the target row's own slice", floor=2)
     f = repo.func(COO_FILE, "em_update_matrix")
-    sites = [s_ for s_ in __import__("sa.rules.c10", fromlist=["x"]).searchsorted_sites(repo) if s_[0] is f]
+    sites = [s_ for s_ in c10.searchsorted_sites(repo) if s_[0] is f]
     if not sites:
         raise AnalysisError("R11.4: searchsorted site not found in em_update_matrix")
     _, target, call, arr, key = sites[0]
     sd = single_defs(f)
     if arr not in sd or not (isinstance(sd[arr], ast.Subscript) and isinstance(sd[arr].slice, ast.Slice)):
         raise AnalysisError("R11.4: `%s` is not a slice of the index array" % arr)
-    lo, hi = sd[arr].slice.lower, sd[arr].slice.upper
-    # upper bound must be the next row pointer of the same row
+
+    # only the names the slice bounds are written with (e.g. row_start) are expanded - never the position itself
+    bound_names = {x.id for x in ast.walk(sd[arr].slice) if isinstance(x, ast.Name) and x.id in sd}
+
+    def full(e):
+        cur = e
+        for _ in range(3):
+            names = {x.id for x in ast.walk(cur) if isinstance(x, ast.Name) and x.id in bound_names}
+            if not names:
+                break
+            cur = sym.substitute(cur, {k: sd[k] for k in names})
+        return cur
+
+    lo, hi = full(sd[arr].slice.lower), full(sd[arr].slice.upper)
     if isinstance(lo, ast.Subscript) and isinstance(hi, ast.Subscript) and norm(lo.value) == norm(hi.value) \
             and sym.sub(sym.poly(hi.slice), sym.poly(lo.slice)) == {(): 1}:
         rr.ok(f, "row slice", "`%s` = indices[indptr[t] : indptr[t + 1]]" % arr, sd[arr].lineno)
     else:
         rr.bad(f, "row slice", "`%s` is not the slice indptr[t] : indptr[t + 1] of one row" % arr, sd[arr].lineno)
-    pos = norm(target)
-    uses = [n for n in walk_no_nested(f.node) if isinstance(n, ast.Subscript) and pos in norm(n.slice) and norm(n.value) != arr and n is not target
-            and norm(n.slice) != pos]
-    if not uses:
-        raise AnalysisError("R11.4: no data access through the searchsorted position found")
-    for u in uses:
-        off = sym.sub(sym.poly(u.slice), sym.poly(ast.parse(pos, mode="eval").body))
+    # is the stored position row-local, or already in the coordinates of the whole array (start + searchsorted)?
+    wrapper = c10._CLAMPED.get(id(call))
+    included = {}
+    if isinstance(wrapper, ast.BinOp) and isinstance(wrapper.op, ast.Add):
+        other = wrapper.right if any(call is x for x in ast.walk(wrapper.left)) else wrapper.left
+        included = sym.poly(full(other))
+    want = sym.sub(sym.poly(lo), included)
+    aliases = {norm(target)}
+    for n in walk_no_nested(f.node):
+        if isinstance(n, ast.Assign) and norm(n.value) in aliases:
+            aliases.add(norm(n.targets[0]))
+    data_params = [p_ for p_ in f.params if "data" in p_]
+    uses = []
+    for n in walk_no_nested(f.node):
+        if isinstance(n, ast.Subscript) and norm(n.value) in data_params:
+            hit = [a_ for a_ in aliases if a_ in norm(n.slice)]
+            if hit:
+                uses.append((n, max(hit, key=len)))
+    if len(uses) < 2:
+        raise AnalysisError("R11.4: prior / posterior data accesses through the searchsorted position not found")
+    for u, al in uses:
+        off = sym.sub(sym.poly(full(u.slice)), sym.poly(ast.parse(al, mode="eval").body))
         construct = "%s[%s]" % (norm(u.value), short(u.slice, 50))
-        if off == sym.poly(lo):
-            rr.ok(f, construct, "offset `%s` is the start of the row's slice" % norm(lo), u.lineno)
+        if off == want:
+            rr.ok(f, construct, "cell = start of the row's slice + position in the slice", u.lineno)
         else:
-            rr.bad(f, construct, "the cell is addressed at `%s` + position, but the position was found in the slice starting at `%s`: "
-                   "mass is read from / credited to another row" % (sym.show(off), norm(lo)), u.lineno)
+            rr.bad(f, construct, "the cell is addressed at position + `%s`, but the position was found in the slice starting at `%s`%s: "
+                   "mass is read from / credited to another row" % (sym.show(off), norm(lo), " (already included in the position)" if included else ""), u.lineno)
     return rr
 
 
